@@ -406,9 +406,10 @@ class SqlImpl(TableImpl):
             ]
 
             # resolve potential column name collisions in the subquery
+            own_name = dict()
             for uid in subquery_cols:
                 if uid in sqa_expr:
-                    name = sqa_expr[uid].name
+                    name = own_name[uid] = sqa_expr[uid].name
                     if c := cnt.get(name):
                         name_in_subquery[uid] = f"{name}_{c}"
                         cnt[name] = c + 1
@@ -419,8 +420,10 @@ class SqlImpl(TableImpl):
                     query.select.append(uid)
 
             table = cls.compile_query(table, query, sqa_expr).subquery()
+            # Outside of the subquery, every column carries its own name again (inside, a
+            # suffix may have been added to make the names unique).
             sqa_expr = {
-                uid: sqa.label(name_in_subquery[uid], table.columns.get(name_in_subquery[uid]))
+                uid: sqa.label(own_name[uid], table.columns.get(name_in_subquery[uid]))
                 for uid in subquery_cols
                 if uid in sqa_expr
             }
